@@ -18,6 +18,10 @@ CHECKS = {
          "TLC checks that the transcribed fill / early-return / fold / re-imposition mechanism refines the specified background and forced-surface rule for every configuration, and every configuration (thermal constants x gravity x coordinate system x forced x feature set) is replayed at five depths with five property lists; additionally the outside probe of every Paint.tla stack.",
          "constants from small sets; " + NOTE,
          "TLA+/TLC (Background.tla, Paint.tla) + replay with evaluated closed-form terms"),
+ "C04": ("model_checking",
+         "TLC builds every simple polygon with up to MaxV vertices on the lattice and checks, for every probe of the doubled lattice, that the transcribed winding-number code equals the definitional closed-polygon predicate; each polygon is replayed as the footprint of the three area-feature types with exact (integer-metre) boundary probes and depth-interval probes. Plume tables: TLC decides interval, fraction and cyclic-angle branch exactly and emits the ellipse function as a term the harness evaluates.",
+         "4x4 lattice, 3-4 vertices quick / 5 thorough; plume tables of 1-2 sections (3 simulated); membership within 1e-6 of a curved boundary not asserted; " + NOTE,
+         "TLA+/TLC (Extent.tla Mech=Prop, Plume.tla) + replay of every polygon / table"),
  "C09": ("model_checking",
          "TLC maps every 2D probe exactly onto the section (rational arithmetic on Pythagorean directions), checks that the probes stay away from straight feature boundaries, and every section x position x depth x property list is replayed: the 2D reply must equal the 3D reply at the mapped point block by block, velocities as the specified projection, and a world without cross section must refuse.",
          "36 sections (origins x 6 directions x Cartesian/spherical), 45 property lists; tolerance 1e-9 because the code's own mapping rounds; " + NOTE,
